@@ -54,7 +54,12 @@ CONSTANTS
   NRows,       \* rows of that design matrix
   RegKinds,    \* regularization blocks [z |-> zeroth term, c |-> neighbour term]: z*I + c*PathLaplacian
   SPats,       \* set of reconstruction patterns (sequences of integers, the first P entries are used)
-  JunkFills    \* junk fillings explored for the masked-native mode (0 = zeros)
+  JunkFills,   \* junk fillings explored for the masked-native mode (0 = zeros)
+  HistShapes,  \* shapes whose instances are also explored AFTER a dataset history (a fit of another dataset on the
+               \* same / a copied / a parent dataset object)
+  HistKinds,   \* the histories explored
+  Memoise      \* FALSE: the design (every fit computes from the arrays it is given).  TRUE: a design that stores the
+               \* noise normalization with the dataset object at the first fit (shown to be wrong by TLC)
 
 \* the table is what the driver computed with math.log; pin it against the known digits of
 \* ln(2 pi) = 1.8378770664093..., ln 4 = 1.3862943611198...
@@ -224,12 +229,39 @@ InvFamily ==
           : lay \in Layouts }
 NoInv == [objs |-> << >>, H |-> << >>, FH |-> << >>, s |-> << >>]
 
+\* ---- dataset histories ---------------------------------------------------
+\* The judged fit may be preceded by a fit of ANOTHER dataset that lives on the same Python object, on an object the
+\* judged dataset was copied from, or on the parent the judged dataset was derived from.  PredDataset gives frame,
+\* unmasked set and noise exponents (slim order) of that earlier dataset; its noise differs from the judged one.
+AltE(e) == IF \A k \in DOMAIN e : e[k] = 1 THEN [k \in DOMAIN e |-> -1]
+           ELSE [k \in DOMAIN e |-> IF e[k] = 1 THEN 1 ELSE e[k] + 1]
+FillE(lin) == (lin % 3) - 1
+ShiftIn(U) == { << c[1] + 1, c[2] + 1 >> : c \in U }
+Ring(H, W) == { c \in Cells(H + 2, W + 2) : (c[1] = 0 \/ c[2] = 0 \/ c[1] = H + 1 \/ c[2] = W + 1) /\ Lin(c, W + 2) % 2 = 0 }
+SameFrameKinds == {"same-object-other-noise-map", "copy-with-reassigned-arrays", "same-object-reassigned-arrays"}
+PredDataset(kind, e, Um, H, W) ==
+    CASE kind \in SameFrameKinds -> [h |-> H, w |-> W, u |-> Um, e |-> AltE(e)]
+      [] kind = "derived-by-apply-mask" ->   \* parent: the whole frame unmasked; the judged dataset = parent.apply_mask
+           [h |-> H, w |-> W, u |-> Cells(H, W),
+            e |-> [k \in 1 .. H * W |-> IF Unmasked(k, Um, W) THEN e[Rank(CellOf(k-1, W), Um, W)] ELSE FillE(k-1)]]
+      [] kind = "derived-by-trimming" ->     \* parent: a frame one pixel wider on every side, with more unmasked pixels
+           LET u0 == ShiftIn(Um) \cup Ring(H, W)
+               ss == SlimSeq(u0, H + 2, W + 2)
+           IN [h |-> H + 2, w |-> W + 2, u |-> u0,
+               e |-> [k \in 1 .. Len(ss) |-> IF ss[k] \in ShiftIn(Um) THEN e[Rank(<< ss[k][1] - 1, ss[k][2] - 1 >>, Um, W)]
+                                              ELSE FillE(Lin(ss[k], W + 2))]]
+\* derived datasets are slim datasets (apply_mask / trimming build them); the other histories exist in both modes
+NativeOk(kind) == kind \in SameFrameKinds
+\* a parent differs from its apply_mask child only if the child masks something
+Applicable(kind, Um, H, W) == kind = "derived-by-apply-mask" => Um # Cells(H, W)
+
 -----------------------------------------------------------------------------
 (* Layer 2: the machine.  Init chooses a dataset, a model, a sky level and  *)
-(* optionally an inversion; one action per evaluation mode of the fit.     *)
+(* optionally an inversion; one action per evaluation mode of the fit, and *)
+(* Precede(k): an earlier fit of another dataset on a related object.      *)
 
-VARIABLES shape, U, pix, sky, inv, phase, obs
-vars == << shape, U, pix, sky, inv, phase, obs >>
+VARIABLES shape, U, pix, sky, inv, phase, obs, hist
+vars == << shape, U, pix, sky, inv, phase, obs, hist >>
 
 Init ==
     /\ \E kind \in {"full", "pat", "inv"} :
@@ -244,6 +276,7 @@ Init ==
     /\ sky \in Skies
     /\ phase = "given"
     /\ obs = << >>
+    /\ hist = << >>
 
 HH == shape[1]
 WW == shape[2]
@@ -256,22 +289,34 @@ WithInv(f) == [fit |-> f,
                inv |-> IF HasInv THEN InvEvalAsCode(inv) ELSE [regq |-> 0, detc |-> 1, detr |-> 1],
                fom |-> IF HasInv THEN "evidence" ELSE "likelihood"]
 
+\* the earlier fit: it reports (and, under Memoise, leaves with the dataset object) ITS noise normalization
+Precede(k) ==
+    /\ phase = "given" /\ hist = << >> /\ shape \in HistShapes /\ ~ HasInv /\ Applicable(k, U, HH, WW)
+    /\ LET p == PredDataset(k, EE, U, HH, WW) IN
+         hist' = << [op |-> k, h |-> p.h, w |-> p.w, u |-> [q \in 1 .. Cardinality(p.u) |-> Lin(SlimSeq(p.u, p.h, p.w)[q], p.w)],
+                     e |-> p.e, nn |-> NoiseNormFix(p.e)] >>
+    /\ UNCHANGED << shape, U, pix, sky, inv, phase, obs >>
+
+HistOp == IF hist = << >> THEN "none" ELSE hist[1].op
+Memo(f) == IF Memoise /\ hist # << >> THEN [f EXCEPT !.nn = hist[1].nn] ELSE f
+
 EvalSlim ==
     /\ phase = "given"
     /\ phase' = "slim"
-    /\ obs' = WithInv(SlimEval(DD, MM, EE, sky))
+    /\ obs' = WithInv(Memo(SlimEval(DD, MM, EE, sky)))
     /\ PrintT(ToJson([k |-> "inst", h |-> HH, w |-> WW,
                       u |-> [q \in 1 .. Cardinality(U) |-> Lin(SlimSeq(U, HH, WW)[q], WW)],
-                      d |-> DD, m |-> MM, e |-> EE, sky |-> sky, hasinv |-> HasInv, inv |-> inv]))
-    /\ UNCHANGED << shape, U, pix, sky, inv >>
+                      d |-> DD, m |-> MM, e |-> EE, sky |-> sky, hasinv |-> HasInv, inv |-> inv, hist |-> hist]))
+    /\ UNCHANGED << shape, U, pix, sky, inv, hist >>
 
 EvalNative(j) ==
     /\ phase = "given"
+    /\ (IF hist = << >> THEN TRUE ELSE NativeOk(hist[1].op))
     /\ phase' = "native"
-    /\ obs' = WithInv(NativeEval(DD, MM, EE, sky, U, HH, WW, j)) @@ [junk |-> j]
-    /\ UNCHANGED << shape, U, pix, sky, inv >>
+    /\ obs' = WithInv(Memo(NativeEval(DD, MM, EE, sky, U, HH, WW, j))) @@ [junk |-> j]
+    /\ UNCHANGED << shape, U, pix, sky, inv, hist >>
 
-Next == EvalSlim \/ \E j \in JunkFills : EvalNative(j)
+Next == EvalSlim \/ (\E j \in JunkFills : EvalNative(j)) \/ (\E k \in HistKinds : Precede(k))
 Spec == Init /\ [][Next]_vars
 
 -----------------------------------------------------------------------------
@@ -327,6 +372,15 @@ RegTermUnchangedByReduction ==
     (phase # "given" /\ HasInv) => obs.inv.regq = Quad(inv.s, inv.H)
 DeterminantsPositive ==
     (phase # "given" /\ HasInv) => obs.inv.detc > 0 /\ obs.inv.detr > 0 /\ obs.inv.detc >= obs.inv.detr
+\* whatever was fitted before on the same, a copied or a parent dataset object, the judged fit reports the
+\* statistics of ITS OWN arrays (violated by the Memoise design: TLC exhibits the history)
+DatasetHistoryNeverMatters ==
+    (phase \in {"slim", "native"}) => /\ obs.fit.nn = NoiseNormFix(EE)
+                                      /\ obs.fit.chi2q = Chi2Q(DD, MM, EE, sky)
+\* the histories are not vacuous: the earlier dataset has a different noise normalization
+PredecessorDiffers ==
+    (hist # << >>) => /\ hist[1].nn # NoiseNormFix(EE)
+                      /\ Len(hist[1].e) = Len(hist[1].u)
 FigureOfMeritChoice ==
     (phase # "given") => (obs.fom = "evidence" <=> HasInv)
 =============================================================================
